@@ -28,6 +28,9 @@ pub enum Loc {
     OutOfRange { beyond: u32 },
     /// the root block when it is an internal node (>= 2 leaves), else out of range
     AtInternal,
+    /// at the leaf of the most recently added key that is still present (builds
+    /// degenerate, very deep trees), falling back to the smallest key
+    AtNewest { right: bool },
 }
 
 #[derive(Serialize, Deserialize, Clone, Debug, PartialEq)]
@@ -36,6 +39,8 @@ pub enum Op {
     Upsert { key: i64, value: i64, hash: u64 },
     Delete { key: i64 },
     Batch { items: Vec<(i64, i64, u64)> },
+    /// batch_insert of n generated items (key base+i, value i, hash id hash_base+i)
+    BulkBatch { n: u32, base: i64, hash_base: u64 },
     Lazy,
     Proofs,
     RestartMem,
@@ -49,6 +54,7 @@ impl Op {
             Op::Upsert { .. } => "upsert",
             Op::Delete { .. } => "delete",
             Op::Batch { .. } => "batch",
+            Op::BulkBatch { .. } => "batch",
             Op::Lazy => "lazy",
             Op::Proofs => "proofs",
             Op::RestartMem => "restart_mem",
@@ -95,6 +101,11 @@ fn ref_internal_hash(l: &Hash, r: &Hash) -> Hash {
 struct Model {
     kv: BTreeMap<i64, (i64, u64)>,
     hashes: BTreeMap<u64, i64>,
+    newest: Option<i64>,
+}
+
+fn bulk_items(n: u32, base: i64, hash_base: u64) -> Vec<(i64, i64, u64)> {
+    (0..n).map(|i| (base.wrapping_add(i64::from(i)), i64::from(i), hash_base + u64::from(i))).collect()
 }
 
 #[derive(Debug, Clone, PartialEq)]
@@ -122,7 +133,7 @@ impl Model {
                             Expect::Err("asroot_nonempty")
                         }
                     }
-                    Loc::AtKey { .. } => {
+                    Loc::AtKey { .. } | Loc::AtNewest { .. } => {
                         if self.kv.is_empty() {
                             Expect::Err("bad_location")
                         } else {
@@ -149,6 +160,7 @@ impl Model {
                     Expect::Err("unknown_key")
                 }
             }
+            Op::BulkBatch { n, base, hash_base } => self.predict(&Op::Batch { items: bulk_items(*n, *base, *hash_base) }),
             Op::Batch { items } => {
                 let mut ks = BTreeSet::new();
                 let mut hs = BTreeSet::new();
@@ -193,6 +205,10 @@ impl Model {
             Op::Insert { key, value, hash, .. } => {
                 self.kv.insert(*key, (*value, *hash));
                 self.hashes.insert(*hash, *key);
+                self.newest = Some(*key);
+            }
+            Op::BulkBatch { n, base, hash_base } => {
+                self.apply(&Op::Batch { items: bulk_items(*n, *base, *hash_base) });
             }
             Op::Upsert { key, value, hash } => {
                 if let Some((_, old)) = self.kv.get(key) {
@@ -205,6 +221,9 @@ impl Model {
             Op::Delete { key } => {
                 if let Some((_, h)) = self.kv.remove(key) {
                     self.hashes.remove(&h);
+                }
+                if self.newest == Some(*key) {
+                    self.newest = None;
                 }
             }
             Op::Batch { items } => {
@@ -532,6 +551,25 @@ impl C18 {
                             index: TreeIndex((before.len() / BLOCK_SIZE) as u32 + beyond),
                             side: Side::Left,
                         },
+                        Loc::AtNewest { right } => {
+                            let side = if *right { Side::Right } else { Side::Left };
+                            if model.kv.is_empty() {
+                                InsertLocation::Leaf { index: TreeIndex(0), side }
+                            } else {
+                                let k = match model.newest {
+                                    Some(k) if model.kv.contains_key(&k) => k,
+                                    _ => *model.kv.keys().next().unwrap(),
+                                };
+                                match guard(|| blob.get_key_index(KeyId(k))) {
+                                    Ok(Ok(i)) => InsertLocation::Leaf { index: i, side },
+                                    Ok(Err(e)) => bail!(fail(
+                                        "content_mismatch:key_index".into(),
+                                        format!("model key {k} has no index: {e}")
+                                    )),
+                                    Err(p) => bail!(fail("panic:get_key_index".into(), p)),
+                                }
+                            }
+                        }
                         Loc::AtInternal => {
                             let idx = if model.kv.len() >= 2 { 0 } else { (before.len() / BLOCK_SIZE) as u32 + 1 };
                             InsertLocation::Leaf { index: TreeIndex(idx), side: Side::Right }
@@ -556,6 +594,14 @@ impl C18 {
                         _ => c.inc("probe.batch_on_n_leaves"),
                     }
                     let v: Vec<((KeyId, ValueId), Hash)> = items
+                        .iter()
+                        .map(|(k, v, h)| ((KeyId(*k), ValueId(*v)), hash_of(*h)))
+                        .collect();
+                    guard(|| blob.batch_insert(v).map_err(|e| variant_name(&e)))
+                }
+                Op::BulkBatch { n, base, hash_base } => {
+                    c.inc("probe.bulk_batch");
+                    let v: Vec<((KeyId, ValueId), Hash)> = bulk_items(*n, *base, *hash_base)
                         .iter()
                         .map(|(k, v, h)| ((KeyId(*k), ValueId(*v)), hash_of(*h)))
                         .collect();
@@ -676,9 +722,9 @@ impl C18 {
                 }
             }
             last_failed = !ok;
-            last_batch = matches!(op, Op::Batch { .. });
+            last_batch = matches!(op, Op::Batch { .. } | Op::BulkBatch { .. });
             match op {
-                Op::Insert { .. } | Op::Upsert { .. } | Op::Delete { .. } | Op::Batch { .. } if ok => {
+                Op::Insert { .. } | Op::Upsert { .. } | Op::Delete { .. } | Op::Batch { .. } | Op::BulkBatch { .. } if ok => {
                     dirty_possible = true;
                 }
                 Op::Lazy => dirty_possible = false,
@@ -793,8 +839,8 @@ impl Engine for C18 {
     }
     fn default_runs(&self, tier: Tier) -> u64 {
         match tier {
-            Tier::Quick => 1_500_000,
-            Tier::Thorough => 30_000_000,
+            Tier::Quick => 1_000_000,
+            Tier::Thorough => 6_000_000,
         }
     }
     fn info(&self) -> EngineInfo {
@@ -832,6 +878,22 @@ impl Engine for C18 {
         } as usize;
         // thorough tier: one run in five is a long history on a larger tree
         let len = if deep { rng.range(40, 160) as usize } else { len };
+        // chain mode: most inserts go next to the newest key, which builds a degenerate
+        // tree whose depth equals its size (seed-derived insert positions and proofs
+        // then walk hundreds of levels)
+        let chain = rng.chance(1, 30);
+        let len = if chain && deep { rng.range(260, 340) as usize } else if chain { len.max(20) } else { len };
+        let chain_right = rng.chance(1, 2);
+        // a bulk batch up front: hundreds of leaves (block indexes above 255), and in the
+        // thorough tier very rarely tens of thousands (indexes above 65535)
+        let bulk: Option<u32> = if deep && rng.chance(1, 40_000) {
+            Some(*rng.pick(&[33_000u32, 66_000]))
+        } else if rng.chance(1, 60) {
+            Some(*rng.pick(&[150u32, 300, 600]))
+        } else {
+            None
+        };
+        let len = if bulk.is_some_and(|n| n > 1000) { len.min(10) } else { len };
         // swarm: per-run operation weights
         let mut w = [0u64; 8];
         for x in w.iter_mut() {
@@ -846,10 +908,23 @@ impl Engine for C18 {
         } else if w[6] + w[7] == 0 && rng.chance(2, 3) {
             w[6] = 1;
         }
+        if chain {
+            w[0] = 12;
+            w[2] = w[2].min(1);
+        }
         let conflict_pct = if faults { *rng.pick(&[0u64, 10, 25, 50]) } else { 0 };
         let total: u64 = w.iter().sum();
         let mut g = Gen { rng, keyspace, model: Model::default(), fresh_hash: 0 };
         let mut ops: Vec<Op> = vec![];
+        if let Some(n) = bulk {
+            // mostly far away from the ordinary key space; sometimes overlapping it
+            let base: i64 = if faults && g.rng.chance(1, 6) { 0 } else { 10_000_000 };
+            let op = Op::BulkBatch { n, base, hash_base: 1 << 32 };
+            if g.model.predict(&op) == Expect::Ok {
+                g.model.apply(&op);
+            }
+            ops.push(op);
+        }
         let mut attempts = 0u32;
         while ops.len() < len {
             attempts += 1;
@@ -870,7 +945,11 @@ impl Engine for C18 {
                     let Some(key) = key else { continue };
                     let hash = if conflict { g.existing_hash().unwrap_or_else(|| g.any_hash()) } else if faults { g.any_hash() } else { g.new_hash() };
                     let valid_only = !faults || !conflict && g.rng.chance(3, 4);
-                    let loc = g.loc(valid_only);
+                    let loc = if chain && !g.model.kv.is_empty() && g.rng.chance(9, 10) {
+                        Loc::AtNewest { right: chain_right }
+                    } else {
+                        g.loc(valid_only)
+                    };
                     Op::Insert { key, value: g.rng.below(1000) as i64 - 500, hash, loc }
                 }
                 "upsert" => {
@@ -940,7 +1019,7 @@ impl Engine for C18 {
                 g.model.apply(&op);
             }
             let failed = !predicted_ok;
-            let was_batch = matches!(op, Op::Batch { .. });
+            let was_batch = matches!(op, Op::Batch { .. } | Op::BulkBatch { .. });
             ops.push(op);
             // bias: a restart right after a failed operation / a batch, where in-flight state exists
             if faults && (failed || was_batch) && ops.len() < len && g.rng.chance(1, 3) {
@@ -976,6 +1055,10 @@ impl Engine for C18 {
                     alts.push(Op::Insert { key: *key, value: *value, hash: *hash, loc: Loc::Auto });
                 }
                 Op::RestartFile => alts.push(Op::RestartMem),
+                Op::BulkBatch { n, base, hash_base } if *n > 1 => {
+                    alts.push(Op::BulkBatch { n: n / 2, base: *base, hash_base: *hash_base });
+                    alts.push(Op::BulkBatch { n: n - 1, base: *base, hash_base: *hash_base });
+                }
                 _ => {}
             }
             for a in alts {
